@@ -34,3 +34,22 @@ def v3_rollback_of_subtree_delete(scenario, trace, line):
             if v == "<del>" and any(_under(p, q) for q in stored):
                 return True
     return False
+
+
+def v3_next_ordinal_not_next_index(scenario, trace, line):
+    """F46: (live mode) at the offending fixed point a CHANGE k is committed, its apply Pending and its ordinal is the next one
+    to be applied (cord = applied ordinal + 1), the apply stage that ended last was the ROLLBACK of a transaction j (its
+    rollback ordinal is the applied ordinal) and k is not j+1: the requeue at the end of j's rollback names j+1, the
+    configuration event names the targets / last indexes - nothing names k."""
+    if not trace or line >= len(trace):
+        return False
+    L = trace[line]
+    aord = L["cfg"]["aord"]
+    ended = [t for t in L["txs"] if t["phase"] == "Rollback" and t["rord"] == aord and t["ra"] in ("Complete", "Failed")]
+    if not ended:
+        return False
+    j = ended[0]["i"]
+    for t in L["txs"]:
+        if t["phase"] == "Change" and t["cc"] == "Complete" and t["ca"] == "Pending" and t["cord"] == aord + 1 and t["i"] != j + 1:
+            return True
+    return False
